@@ -164,6 +164,11 @@ func ToStream(cat *catalog.Catalog, subStream **stream.SubStream) (
 			})
 
 		case strings.HasPrefix(track.Codec, "mp4a"):
+			// the sample rate is used as clock rate and as divisor by readers
+			if track.Samplerate <= 0 || track.Samplerate > 0xFFFFFF {
+				return nil, nil, fmt.Errorf("invalid sample rate of track %s: %d", track.Name, track.Samplerate)
+			}
+
 			config := &mpeg4audio.AudioSpecificConfig{
 				Type:          mpeg4audio.ObjectTypeAACLC,
 				SampleRate:    track.Samplerate,
